@@ -275,6 +275,9 @@ int run_case(Reader& r, bool& nontrivial, std::string& desc) {
     bool junit_v = use_runner && verbosity && !sepproc && r.below(3) == 1;   // -ojunit -v: composite of JUnit (files stubbed) and console
     bool crash_f = use_runner && !sepproc && r.below(8) == 1;      // -f with a crash method that returns
     uint32_t bystanders = r.below(3) == 1 ? r.below(64) : 0;       // other plugins in the chain (bits 0..2 present, bits 3..5 disabled)
+    // an earlier run of the same process: another runner invocation with the opposite exception setting on a registry of its own
+    // (one passing test); what it leaves behind in process-wide state must not reach the run that is judged
+    bool prelude = use_runner && !sepproc && r.below(4) == 1;
     int n = 1 + (int)r.below(24);
     int mode = (int)r.below(6);          // 0..3 free scripts, 4/5 uniform program: every test carries the same script (long runs of one failing kind)
     bool uniform = mode >= 4; TestSpec proto;
@@ -333,6 +336,15 @@ int run_case(Reader& r, bool& nontrivial, std::string& desc) {
     UtestShell* cur_before = UtestShell::getCurrent(); TestResult* res_before = current_result();
     int depth_before = CppUTestVerif_JumpBufferDepth();
 
+    if (prelude) {
+        TestRegistry reg0; ScriptShell t0(0, "Ga", "prelude", 1);   // its script is test 0's: make it harmless by running with a filter that selects nothing
+        reg0.addTest(&t0);
+        std::vector<std::string> a0 = {"prog", "-sg", "NoSuchGroup"}; if (rethrow) a0.push_back("-e");   // the opposite of what the judged run asks for
+        std::vector<const char*> av0; for (auto& a : a0) av0.push_back(a.c_str());
+        std::string sink0; { Runner r0((int)av0.size(), av0.data(), &reg0, &sink0); r0.runAllTestsMain(); }
+        g_trace.clear(); g_probe = Probe(); g_rep = -1;
+        verif::cls("after an earlier run with the opposite -e setting");
+    }
     // ---- run
     std::string out; int rv = 0; bool rv_valid = false; bool escaped = false;
 #if CPPUTEST_HAVE_EXCEPTIONS
